@@ -94,6 +94,7 @@ namespace verif
     size_t max_fail_per_worker = 40;
     size_t max_report = 12;     // VIOLATION lines printed
     double deadline_quick_s = 540, deadline_thorough_s = 3300;
+    double case_timeout_s = 900; // a worker that stays in one case longer than this is killed and the case reported as a hang
     bool silence_stderr = true; // the code under test prints on abort
     int max_jobs = 16;
   };
@@ -208,11 +209,13 @@ namespace verif
       return duration<double>(steady_clock::now().time_since_epoch()).count();
     }
     bool cut() const { return _cut; }
+    /// long-running cases (a whole state-space exploration inside one case) tell the watchdog that they are alive
+    void heartbeat() { if(_shm) _shm->hb = _shm->hb + 1; }
     /// harness may declare that it hit its own cap
     void capped(const std::string& what) { _counters["cap:" + what] += 1; _capped = true; }
 
     // ---- internals (used by run())
-    struct Shm { volatile long cur; char desc[8192]; };
+    struct Shm { volatile long cur; volatile long hb; char desc[8192]; };
     long _idx = -1, _only = -1;
     long _me = 0, _nworkers = 1;
     bool _cut = false, _capped = false, _active = false, _have_desc = false;
@@ -303,8 +306,14 @@ namespace verif
   }
 
   /// Entry point. Returns the process exit code (0 ok, 1 violation, 2 machinery error).
-  inline int run(const Spec& spec, int argc, char** argv, const std::function<void(Ctx&)>& body)
+  inline int run(const Spec& spec_in, int argc, char** argv, const std::function<void(Ctx&)>& body)
   {
+    Spec spec = spec_in;
+    {
+      // checks.json may tighten the hang watchdog for harnesses whose cases are tiny
+      const char* ct = std::getenv("VERIF_CASE_TIMEOUT_S");
+      if(ct && atof(ct) > 0.0) spec.case_timeout_s = atof(ct);
+    }
     std::string tier = detail::getenv_s("VERIF_TIER", "quick");
     long only = -1;
     int jobs = spec.max_jobs;
@@ -364,7 +373,7 @@ namespace verif
         x.shm = static_cast<Ctx::Shm*>(mmap(nullptr, sizeof(Ctx::Shm), PROT_READ | PROT_WRITE, MAP_SHARED | MAP_ANONYMOUS, -1, 0));
         x.out = scratch + "/" + spec.harness + "." + tier + "." + std::to_string(w) + ".out";
       }
-      x.shm->cur = -1; x.shm->desc[0] = 0;
+      x.shm->cur = -1; x.shm->hb = 0; x.shm->desc[0] = 0;
       unlink(x.out.c_str());
       unlink((x.out + ".hashes").c_str());
       fflush(stdout); fflush(stderr);
@@ -391,11 +400,30 @@ namespace verif
 
     for(int w = 0; w < jobs; ++w) spawn(w);
     size_t running = (size_t)jobs;
+    std::vector<long> wd_cur((size_t)jobs, -2);
+    std::vector<double> wd_t((size_t)jobs, nowf());
+    std::vector<char> wd_killed((size_t)jobs, 0);
     while(running > 0)
     {
       int st = 0;
-      pid_t p = wait(&st);
+      pid_t p = waitpid(-1, &st, WNOHANG);
       if(p < 0) { if(errno == EINTR) continue; break; }
+      if(p == 0)
+      {
+        // watchdog: a worker that does not leave its current case within case_timeout_s hangs
+        const double tn = nowf();
+        for(int i = 0; i < jobs; ++i)
+        {
+          W& y = ws[(size_t)i];
+          if(y.done || y.pid <= 0 || !y.shm) continue;
+          const long c = y.shm->cur * 1000003L + y.shm->hb;
+          if(c != wd_cur[(size_t)i]) { wd_cur[(size_t)i] = c; wd_t[(size_t)i] = tn; }
+          else if(y.shm->cur >= 0 && tn - wd_t[(size_t)i] > spec.case_timeout_s && !wd_killed[(size_t)i])
+          { wd_killed[(size_t)i] = 1; kill(y.pid, SIGKILL); }
+        }
+        usleep(100000);
+        continue;
+      }
       int w = -1;
       for(int i = 0; i < jobs; ++i) if(ws[(size_t)i].pid == p) w = i;
       if(w < 0) continue;
@@ -404,6 +432,8 @@ namespace verif
       // worker died
       long idx = x.shm->cur;
       int sig = WIFSIGNALED(st) ? WTERMSIG(st) : -WEXITSTATUS(st);
+      const bool was_hang = wd_killed[(size_t)w] != 0;
+      wd_killed[(size_t)w] = 0; wd_cur[(size_t)w] = -2; wd_t[(size_t)w] = nowf();
       x.crashes++;
       // replay the single case alone
       std::string d;
@@ -416,7 +446,7 @@ namespace verif
         {
           int dn = open("/dev/null", O_WRONLY);
           if(dn >= 0) { dup2(dn, 2); dup2(dn, 1); }
-          alarm(600);
+          alarm((unsigned)(spec.case_timeout_s + 30));
           Ctx c; c.thorough = thorough; c.seed = seed; c._only = idx; c._shm = x.shm; c._max_fail = 1000000;
           body(c);
           _exit(c._fails.empty() ? 0 : 77);
@@ -431,8 +461,9 @@ namespace verif
       Fail f; f.idx = idx; f.desc = d;
       if(sig2 != 0)
       {
-        f.key = "crash";
-        f.msg = "worker died at this case (signal/exit " + std::to_string(sig) + "), reproduced alone (" + std::to_string(sig2) + ")";
+        f.key = (was_hang || sig2 == SIGALRM) ? "hang" : "crash";
+        f.msg = (was_hang ? std::string("case did not finish within the case timeout (worker killed)") : "worker died at this case (signal/exit " + std::to_string(sig) + ")")
+          + ", reproduced alone (" + std::to_string(sig2) + (sig2 == SIGALRM ? " = timeout" : "") + ")";
         crash_fails.push_back(f);
       }
       else
